@@ -37,7 +37,7 @@ CONFIG = dict(
              'shape-renchain-pathdel (60 quick / 1 000 thorough): a chain of two or three renames of one file on a branch, in four of five cases a NEW file on a name the chain gave up, a second (and third) branch that forked at the root, inside the chain or after it '
              'and still has the file under an older name, tail edits of both files, hibernation / tracking / G / S drawn as everywhere; dagren-pathdel also creates files on names given up by renames. '
              'Files that are only renamed and new files on names given up by a rename are judged under their name at HEAD (per-file matrix, ownership) when the history satisfies three structural conditions computed by the driver '
-             '(D4: no concurrent commit has another file under a name at the moment a file takes it). Known findings F27 / F28: a PROPFAIL about a file that is renamed back to an earlier name starts with [renamed-back-to-earlier-name], one about a renamed file '
+             '(D4: no concurrent commit has another file under a name at the moment a file takes it). Findings F27 (known) and F28 (fixed in /repo cb7e5ac; its tag is kept, a tagged failure is a violation again): a PROPFAIL about a file that is renamed back to an earlier name starts with [renamed-back-to-earlier-name], one about a renamed file '
              'for which a commit concurrent with the rename (or a parent of it) does not have the file yet starts with [rename-consumed-before-merge-replay]; every other failure is untagged. '
              'Large cases (field scale) are judged by the ground truth computed natively by the driver (difference arrays; the same definitions as Lifetimes.v / Linear.v), '
              'which every small case of the run checks against the extracted oracle; the analysis model is stepped on the opt family but not on the 10^3-commit cases. '
